@@ -180,3 +180,127 @@ func buildAlphabet() []Event {
 	}
 	return out
 }
+
+// ---------------------------------------------------------------------------------------------
+// Families of "nearly equal" texts: byte-wise distinct (so their SHA-256 differ) but equal under a
+// normalisation some cache key might plausibly apply (collapse / trim whitespace, drop a BOM,
+// unify line endings, fold case, Unicode-normalise). Members may or may not MEAN the same; what
+// each exact text means is written down below (echo returns and logs its argument). Each family
+// is explored as a universe of its own (BFS over all its events from all reachable states), so
+// every member is requested by text, text+hash and hash only after every sibling was seen first.
+
+type family struct {
+	ID    string
+	Why   string
+	Texts []string
+}
+
+var families = []family{
+	{ID: "strspace", Why: "amount / kind of whitespace inside a string literal is data",
+		Texts: []string{`{ echo(s: "a b") }`, `{ echo(s: "a  b") }`, "{ echo(s: \"a\tb\") }"}},
+	{ID: "comment", Why: "the newline that ends a # comment decides what is commented out",
+		Texts: []string{"{ a # b\n}", "{ a #\n b }"}},
+	{ID: "strcase", Why: "case inside a string literal is data",
+		Texts: []string{`{ echo(s: "ab") }`, `{ echo(s: "AB") }`}},
+	{ID: "namecase", Why: "names are case-sensitive: NAME is not a field",
+		Texts: []string{`{name}`, `{NAME}`}},
+	{ID: "blockstr", Why: "a newline inside a block string is data",
+		Texts: []string{"{ echo(s: \"\"\"a\nb\"\"\") }", `{ echo(s: """a b""") }`}},
+	{ID: "unicode", Why: "NFC and NFD spellings of a string literal are different data",
+		Texts: []string{"{ echo(s: \"\u00e9\") }", "{ echo(s: \"e\u0301\") }"}},
+	{ID: "outerws", Why: "same document, different bytes (trailing newline, leading space, BOM): same meaning, different hash",
+		Texts: []string{"{a}", "{a}\n", " {a}", "\ufeff{a}"}},
+	{ID: "eol", Why: "same document with LF / CRLF line ends: same meaning, different hash",
+		Texts: []string{"{ a\n b }", "{ a\r\n b }"}},
+}
+
+func jsonOf(s string) string { b, _ := json.Marshal(s); return string(b) }
+
+func querySpec(valid bool, data string, log ...string) textSpec {
+	if !valid {
+		return textSpec{Data: map[string]string{"POST": "", "GET": ""}, Log: map[string][]string{}}
+	}
+	l := append([]string{"exec:query"}, log...)
+	return textSpec{Valid: true, Data: map[string]string{"POST": data, "GET": data}, Log: map[string][]string{"POST": l, "GET": l}}
+}
+
+func echoSpec(arg string) textSpec {
+	return querySpec(true, `{"echo":`+jsonOf(arg)+`}`, "rootfield:Query.echo", "resolver:Query.echo(s:"+jsonOf(arg)+")")
+}
+
+var (
+	specA  = querySpec(true, `{"a":"A"}`, "rootfield:Query.a", "resolver:Query.a()")
+	specAB = querySpec(true, `{"a":"A","b":null}`, "rootfield:Query.a", "resolver:Query.a()", "rootfield:Query.b", "resolver:Query.b()")
+)
+
+// what each exact family text means
+var familyMeaning = map[string]textSpec{
+	`{ echo(s: "a b") }`:            echoSpec("a b"),
+	`{ echo(s: "a  b") }`:           echoSpec("a  b"),
+	"{ echo(s: \"a\tb\") }":         echoSpec("a\tb"),
+	"{ a # b\n}":                    specA,
+	"{ a #\n b }":                   specAB,
+	`{ echo(s: "ab") }`:             echoSpec("ab"),
+	`{ echo(s: "AB") }`:             echoSpec("AB"),
+	`{name}`:                        textInfo["{name}"],
+	`{NAME}`:                        querySpec(false, ""),
+	"{ echo(s: \"\"\"a\nb\"\"\") }": echoSpec("a\nb"),
+	`{ echo(s: """a b""") }`:        echoSpec("a b"),
+	"{ echo(s: \"\u00e9\") }":       echoSpec("\u00e9"),
+	"{ echo(s: \"e\u0301\") }":      echoSpec("e\u0301"),
+	"{a}":                           specA,
+	"{a}\n":                         specA,
+	" {a}":                          specA,
+	"\ufeff{a}":                     specA,
+	"{ a\n b }":                     specAB,
+	"{ a\r\n b }":                   specAB,
+}
+
+func init() {
+	for _, f := range families {
+		for i, t := range f.Texts {
+			spec, ok := familyMeaning[t]
+			if !ok {
+				panic("family text without a meaning: " + t)
+			}
+			if _, base := textInfo[t]; !base {
+				textInfo[t] = spec
+				n := fmt.Sprintf("%s.%c", f.ID, 'a'+i)
+				nicks[t] = n
+				nicks[sha(t)] = "H(" + n + ")"
+			}
+		}
+	}
+}
+
+// familyAlphabet: every member as text only, text + own hash, text + hash of each sibling, hash
+// only; POST block then GET block.
+func familyAlphabet(f family) []Event {
+	var out []Event
+	for _, method := range []string{"POST", "GET"} {
+		ev := func(kind, text, hash, label string) {
+			e := Event{Name: method + " " + label, Kind: f.ID + ":" + kind, Method: method, Text: text, Ext: "none"}
+			if hash != "" {
+				e.PQ, e.Ext, e.Version, e.Hash = pqJSON(1, hash), "ok", 1, hash
+			}
+			out = append(out, e)
+		}
+		for _, t := range f.Texts {
+			ev("text-only", t, "", nick(t))
+		}
+		for _, t := range f.Texts {
+			ev("text+own-hash", t, sha(t), nick(t)+"+"+nick(sha(t)))
+		}
+		for _, t := range f.Texts {
+			for _, u := range f.Texts {
+				if t != u {
+					ev("text+sibling-hash", t, sha(u), nick(t)+"+"+nick(sha(u)))
+				}
+			}
+		}
+		for _, t := range f.Texts {
+			ev("hash-only", "", sha(t), "only "+nick(sha(t)))
+		}
+	}
+	return out
+}
